@@ -440,6 +440,96 @@ func c13inputUnits(tier string) []mc.Unit {
 		r.AddNontrivial(cnt)
 		r.Bound("long-lines", "one line of each of 5 kinds at 12 lengths (100 .. 150 000 bytes; thorough 1 100 000), LF and CRLF, whole and chunked reads")
 	}})
+	// sequence-line lengths: every length 1..L, and every multiple of 1 KiB (and its neighbours) up to 300 KiB, with LF and
+	// CRLF line ends (a reader that works in pieces of any size meets a line end at every offset of a piece)
+	for part := 0; part < 4; part++ {
+		part := part
+		us = append(us, mc.Unit{Name: fmt.Sprintf("line-lengths/part=%d", part), Weight: 80, Run: func(r *mc.Recorder) {
+			var cnt int64
+			var lens []int
+			for n := 1; n <= tier2(tier, 9000, 20000); n++ {
+				lens = append(lens, n)
+			}
+			for k := 1; k*1024 <= 300*1024; k++ {
+				for d := -2; d <= 2; d++ {
+					if k*1024+d > tier2(tier, 9000, 20000) {
+						lens = append(lens, k*1024+d)
+					}
+				}
+			}
+			full := lcgString("ACGTN", 310*1024, 9)
+			for i, n := range lens {
+				if i%4 != part {
+					continue
+				}
+				for _, nl := range []string{"\n", "\r\n"} {
+					line := full[len(full)-n:]
+					recs := []fasta.Fasta{{Name: "r1", Sequence: line + "ACGT"}, {Name: "r2", Sequence: "TT"}}
+					text := ">r1" + nl + line + nl + "ACGT" + nl + ">r2" + nl + "TT" + nl
+					var got []fasta.Fasta
+					p := catch(func() { got = fasta.Parse(strings.NewReader(text)) })
+					cnt++
+					if p != "" || !c13equal(got, recs) {
+						r.Failf("layout-independent", fmt.Sprintf("sequence line of %d letters, CRLF=%v", n, nl != "\n"), []string{"line-length"}, c13show(recs), c13show(got)+p)
+					}
+				}
+				if r.Enough() {
+					break
+				}
+			}
+			r.Eval(cnt)
+			r.AddStates(cnt)
+			r.AddTransitions(cnt)
+			r.AddNontrivial(cnt)
+			r.Bound("line-lengths", fmt.Sprintf("every line length 1..%d and every multiple of 1 KiB (+-2) up to 300 KiB, LF and CRLF", tier2(tier, 9000, 20000)))
+		}})
+	}
+	// gzip files written as several members (bgzip, pigz -i, cat a.gz b.gz), through both gzip entry points
+	us = append(us, mc.Unit{Name: "files/multi-member-gzip", Weight: 20, Run: func(r *mc.Recorder) {
+		dir, err := os.MkdirTemp("", "c13mm")
+		if err != nil {
+			panic(err)
+		}
+		defer os.RemoveAll(dir)
+		var cnt int64
+		var list []fasta.Fasta
+		for i := 0; i < 6; i++ {
+			list = append(list, fasta.Fasta{Name: fmt.Sprintf("rec%d", i), Sequence: lcgString("ACGT", 50+37*i, uint32(i))})
+		}
+		text := fasta.Build(list)
+		for _, members := range []int{2, 3, 6} {
+			var gzb []byte
+			for m := 0; m < members; m++ {
+				lo, hi := m*len(text)/members, (m+1)*len(text)/members
+				gzb = append(gzb, c13gz(text[lo:hi])...)
+			}
+			path := filepath.Join(dir, fmt.Sprintf("m%d.fasta.gz", members))
+			os.WriteFile(path, gzb, 0o644)
+			var got []fasta.Fasta
+			p := catch(func() { got = fasta.ReadGz(path) })
+			cnt++
+			if p != "" || !c13equal(got, list) {
+				r.Failf("gzip-independent", fmt.Sprintf("ReadGz of a gzip file written as %d members", members), []string{"multi-member"}, c13show(list), c13show(got)+p)
+			}
+			ch := make(chan fasta.Fasta, 3)
+			var res []fasta.Fasta
+			p = catch(func() {
+				fasta.ReadGzConcurrent(path, ch)
+				for f := range ch {
+					res = append(res, f)
+				}
+			})
+			cnt++
+			if p != "" || !c13equal(res, list) {
+				r.Failf("stream", fmt.Sprintf("ReadGzConcurrent of a gzip file written as %d members", members), []string{"multi-member"}, c13show(list), c13show(res)+p)
+			}
+		}
+		r.Eval(cnt)
+		r.AddStates(cnt)
+		r.AddTransitions(cnt)
+		r.AddNontrivial(cnt)
+		r.Bound("files/multi-member-gzip", "a 6-record file written as 2, 3 and 6 gzip members (member boundaries inside records), ReadGz and ReadGzConcurrent")
+	}})
 	// big files through every file entry point, in every scratch directory (distinct file systems)
 	for _, mb := range []int{1, tier2(tier, 12, 40)} {
 		mb := mb
